@@ -119,7 +119,7 @@ DateRangeOK(d1, d2, val) ==
   IF DateLess(d1, d2)
   THEN val = MkInterval(d1, d2)
   ELSE ~(IsInterval(val) /\ val.f # NONE /\ val.t # NONE /\ FullyDated(val.f) /\ FullyDated(val.t)
-          /\ TimeAbs(val.f) > TimeAbs(val.t))
+          /\ TsLT(MkTs(val.t.y, val.t.m, val.t.d, Nz(val.t.H, 0), Nz(val.t.M, 0)), MkTs(val.f.y, val.f.m, val.f.d, Nz(val.f.H, 0), Nz(val.f.M, 0))))
 \* before / after / not before / not after
 HalfOpenOK(side, x, val) ==
   IF side = "until" THEN val = MkInterval(NONE, x) ELSE val = MkInterval(x, NONE)
@@ -132,6 +132,6 @@ EndAfter(d, n, u) ==
   CASE u \in {"days", "nights"} -> DateOfDays(Days(b) + n)
     [] u = "weeks" -> DateOfDays(Days(b) + 7 * n)
     [] u = "months" -> LET e == AddMonths(b, n) IN Date(e.y, e.m, e.d)
-    [] u = "hours" -> LET e == FromAbsMin(AbsMin(b) + 60 * n) IN DateTime(e.y, e.m, e.d, e.H, e.M)
-    [] u = "minutes" -> LET e == FromAbsMin(AbsMin(b) + n) IN DateTime(e.y, e.m, e.d, e.H, e.M)
+    [] u = "hours" -> LET e == AddMinutes(b, 60 * n) IN DateTime(e.y, e.m, e.d, e.H, e.M)
+    [] u = "minutes" -> LET e == AddMinutes(b, n) IN DateTime(e.y, e.m, e.d, e.H, e.M)
 =============================================================================
